@@ -267,6 +267,17 @@ func (ps *exprParser) parseType() (*TypeExpr, error) {
 			return nil, err
 		}
 		return &TypeExpr{Kind: "slice", Elem: e}, nil
+	case t.kind == "id" && t.text == "set" && ps.toks[ps.p+1].kind == "op" && ps.toks[ps.p+1].text == "[":
+		ps.next()
+		ps.next()
+		e, err := ps.parseType()
+		if err != nil {
+			return nil, err
+		}
+		if err := ps.expectOp("]"); err != nil {
+			return nil, err
+		}
+		return &TypeExpr{Kind: "set", Elem: e}, nil
 	case t.kind == "id" && t.text == "map":
 		ps.next()
 		if err := ps.expectOp("["); err != nil {
